@@ -349,8 +349,8 @@ Section OverlayAll.
 
   Definition ensure_arg (dst : list N) : list N :=
     match split_last dst with
-    | Some (d, f) => if nonempty f && negb (bytes_eqb f s_dot) then d else dst
-    | None => if nonempty dst && negb (bytes_eqb dst s_dot) then [] else dst
+    | Some (d, f) => if nonempty f && negb (bytes_eqb f s_dot) && negb (bytes_eqb f s_dotdot) then d else dst
+    | None => if nonempty dst && negb (bytes_eqb dst s_dot) && negb (bytes_eqb dst s_dotdot) then [] else dst
     end.
 
   (* the overlay of the source(s) over the destination view V0, or the error the call must report *)
